@@ -98,6 +98,7 @@ type Builder struct {
 	False  *Term
 	nfresh int
 	nmemo  map[int]*Term
+	eqMemo map[[2]int]*Term
 }
 
 func NewBuilder() *Builder {
@@ -501,6 +502,28 @@ func (b *Builder) Ite(c, x, y *Term) *Term {
 }
 
 func (b *Builder) Eq(x, y *Term) *Term {
+	if x == y {
+		return b.True
+	}
+	if !x.IsConst() && !y.IsConst() || x.op == OpIte || y.op == OpIte {
+		k := [2]int{x.id, y.id}
+		if x.id > y.id {
+			k = [2]int{y.id, x.id}
+		}
+		if b.eqMemo == nil {
+			b.eqMemo = map[[2]int]*Term{}
+		}
+		if r, ok := b.eqMemo[k]; ok {
+			return r
+		}
+		r := b.eq0(x, y)
+		b.eqMemo[k] = r
+		return r
+	}
+	return b.eq0(x, y)
+}
+
+func (b *Builder) eq0(x, y *Term) *Term {
 	if x == y {
 		return b.True
 	}
